@@ -28,7 +28,25 @@ def sig_default(req):
     return " ".join(toks[1:3])
 
 
+def sig_exec(req):
+    toks = req.split(" ")
+    if toks[0].startswith("#c"):
+        return " ".join(toks[1:3])
+    if len(toks) > 2 and toks[1] == "exec":
+        return "exec " + toks[2]
+    return " ".join(toks[1:2])
+
+
 PROPS = {
+    "C01": {
+        "scenarios": lambda tier: [
+            {"name": "exec", "args": ["*"]},
+        ],
+        "signature": sig_exec,
+        "rule": "every registered instruction, driven by NAME through InstructionSet, on generated states (rich and sparse stacks, boundary-biased operands, index-like integers, extreme ints, non-finite floats, empty and unequal vectors); size-like operands of allocating instructions are capped at 2000 (resource envelope); a transition is non-trivial when the state changed; distinct = distinct request lines",
+        "assumptions": ["EXEC.CMD is replaced by a stub with the same stack effect in generated cases (no sleep, no spawn)",
+                        "resource envelope: operand-controlled allocation sizes bounded (C15 owns the envelope itself)"],
+    },
     "C16": {
         "scenarios": lambda tier: [
             {"name": "stack", "args": []},
